@@ -372,6 +372,9 @@ def run(repo: Repo, rep: Report, tier: str) -> None:
     from .c07 import generic_write_array_rule
 
     generic_write_array_rule(repo, rep, "C01.R24")
+    from .c05 import text_array_fold_rule
+
+    text_array_fold_rule(repo, rep, "C01.R25")
     layout_fold_rule(repo, rep, "C01.R22", 3 if tier == "thorough" else 2)
     from .c05 import leb128_rule as _leb
 
